@@ -133,6 +133,8 @@ class SolvGen:
                 self.add_eliminable()
             elif k < 0.73:
                 self.add_eliminable_state()
+            elif k < 0.76:
+                self.add_lookalike_literals()
             elif k < 0.8:
                 self.add_anchored_chain()
             elif k < 0.9:
@@ -347,6 +349,21 @@ class SolvGen:
             # continue the chain: the next eliminable variable is defined through this one
             self.add_eliminable(depth + 1, name)
             self.want_eliminable = True
+
+    def add_lookalike_literals(self):
+        """two unknowns defined with literals that agree in their first six significant digits."""
+        r = self.r
+        n = sum(1 for d in self.decls if d[2].startswith("na")) + 1
+        l1, l2 = r.choice([(1234567.0, 1234568.0), (155000.25, 155000.75), (101324.75, 101325.25)])
+        a = r.choice([x for x in self.alg if not x.startswith(("_", "xv"))])
+        c = q(r, -2, 2)
+        for nm, lit_ in (("na%d" % n, l1), ("nb%d" % n, l2)):
+            self.decl(nm)
+            self.val[nm] = lit_ + c * self.val[a]
+            self.unknowns.append(nm)
+            self.alg.append(nm)
+            self.eqs.append(("eq", var(nm), ("bin", "+", num(lit_), ("bin", "*", num(c) if c >= 0 else ("neg", num(-c)), var(a)))))
+        self.tags.add("literals-differing-beyond-the-sixth-significant-digit")
 
     def add_eliminable_state(self):
         """an eliminable *differentiated* variable defined through an eliminable algebraic one whose own definition
